@@ -1,4 +1,5 @@
 import Orca.Lemmas.Ops
+import Orca.Lemmas.Redirect
 /-!
 # C11 — converting a local function to an import redirects all its uses
 -/
@@ -31,5 +32,47 @@ example :
     (match (encode s1).2 with
      | Ret.encoded F _ _ res _ => (F, res.map (fun r => (r.site, F[r.idx]?)))
      | _ => ([], [])) = ([21, 20], [(100, some 20), (101, some 21)]) := by decide
+
+/-- **End to end, for every earlier and later history.** Take any state reached from a parsed module (`StInv`), convert the local
+    function `id` to an import `uid`, continue with any history that does not delete that function, does not replace the new
+    import again (and does not encode), then encode. Either the encoder fails loudly because some stored reference designates a
+    deleted entity, or: every emitted reference whose stored id was `id` designates the new import `uid` in the encoded
+    module, and every reference at all designates the live entity its id designated. -/
+theorem c11_uses_refer_to_new_import (s0 : St) (h0 : StInv s0) (id uid : Nat) (x : Item)
+    (hx : s0.f.items[id]? = some x) (hloc : x.imp = false)
+    (ops : List Op) (hs : ∀ op ∈ ops, op ≠ .encode ∧ op ≠ .deleteFunc id ∧ ∀ u c, op ≠ .replaceImport s0.imports.length u c) :
+    let s := (run (localToImport s0 id uid).1 ops).1
+    (∃ s' F G M res st, encode s = (s', Ret.encoded F G M res st)
+        ∧ (∀ r' ∈ res ++ st.toList, ∃ r ∈ allRefs s, r'.site = r.site ∧ r'.sp = r.sp
+            ∧ (∃ u, PointsTo s r u ∧ designated F G M r' = some u)
+            ∧ (r.sp = .F → r.idx = id → designated F G M r' = some uid)))
+    ∨ (∃ s' why, encode s = (s', Ret.panic why) ∧ ∃ r ∈ allRefs s, Dangling s r) := by
+  have hspec := localToImport_spec s0 id uid x hx hloc
+  have h1 : StInv (localToImport s0 id uid).1 := stInv_step s0 (.localToImport id uid) (by intro h; cases h) h0
+  refine encode_redirects _ h1 id { id := id, imp := true, del := false, uid := uid, impId := s0.imports.length } hspec.2.1 ops ?_
+  intro op ho
+  obtain ⟨a, b, c⟩ := hs op ho
+  cases op with
+  | deleteFunc i => exact fun h => b (by subst h; rfl)
+  | localToImport i u => exact .inr rfl
+  | replaceImport k u c' => exact .inr (fun h => c u c' (by rw [← h]))
+  | encode => exact absurd rfl a
+  | _ => exact True.intro
+
+/-- **Every other function keeps its identity through the conversion and whatever follows.** -/
+theorem c11_other_functions_keep_identity (s0 : St) (h0 : StInv s0) (id uid : Nat) (j : Nat) (y : Item)
+    (hy : s0.f.items[j]? = some y) (hother : j ≠ id)
+    (ops : List Op) (hs : SparedBy j y ops) :
+    let s := (run s0 (.localToImport id uid :: ops)).1
+    (∃ s' F G M res st, encode s = (s', Ret.encoded F G M res st)
+        ∧ (∀ r' ∈ res ++ st.toList, ∃ r ∈ allRefs s, r'.site = r.site ∧ r'.sp = r.sp
+            ∧ (∃ u, PointsTo s r u ∧ designated F G M r' = some u)
+            ∧ (r.sp = .F → r.idx = j → designated F G M r' = some y.uid)))
+    ∨ (∃ s' why, encode s = (s', Ret.panic why) ∧ ∃ r ∈ allRefs s, Dangling s r) := by
+  refine encode_redirects s0 h0 j y hy _ ?_
+  intro op ho
+  rcases List.mem_cons.mp ho with rfl | ho
+  · exact .inl (Ne.symm hother)
+  · exact hs op ho
 
 end Orca.Edit
